@@ -22,13 +22,15 @@ TB = ['Coq 8.16.1 kernel (all C15 theorems Closed under the global context); vm_
 ASSUME = ['deliveries are handler invocations for signals that have been registered with the registry (its handler is installed)',
           'the disposition before the first registration was SIG_DFL/SIG_IGN (prev.execute does nothing; chaining is C04)',
           'registration with the registry succeeds (valid, non-forbidden signal: C14); fewer than 2^128 registrations',
-          'one delivery at a time (the history is a sequence; nested / concurrent deliveries are C02/C18)']
+          'one delivery at a time (the history is a sequence; nested / concurrent deliveries are C02/C18); a signal raised inside its own '
+          'handler (script op 9) stays pending until the handler returns and is delivered then - the kernel rule for a handler installed '
+          'without SA_NODEFER (C05 pins the flags); flag/Run.v deliver_chain and the property oracle apply it, the probes validate it']
 
 NB, NU = 3, 2
 STOP_KIND = {19, 20, 21, 22}
 IGN_KIND = {17, 18, 23, 28}
 KNOWN_SIGS = set(range(1, 32)) - {16, 30}     # names known to signal_details.rs on linux (C16 checks the table)
-OPLEN = {1: 3, 2: 2, 3: 3, 4: 4, 5: 4, 6: 3, 7: 2, 8: 3}
+OPLEN = {1: 3, 2: 2, 3: 3, 4: 4, 5: 4, 6: 3, 7: 2, 8: 3, 9: 3}
 
 
 def split_ops(flat):
@@ -56,24 +58,32 @@ def expected(nb, nu, ops):
             fl[o[1]] = (1 if o[2] else 0) if o[1] < nb else o[2]
         elif o[0] == 2:
             sig = o[1]
-            for r in [r for r in regs if r and r['live'] and r['sig'] == sig]:
-                k = r['kind']
-                if k == 3:
-                    fl[r['f']] = 1                      # a registered flag holds true ...
-                elif k == 4:
-                    fl[r['f']] = r['v']                 # ... or the registered value
-                elif k == 5:
-                    if fl[r['c']]:                      # condition true at that moment: immediately,
-                        return log + [9, 1, r['status'] & 0xff, 0]   # exactly that status, no exit hooks
-                elif k == 6:
-                    if fl[r['c']]:
-                        if sig in STOP_KIND:
-                            return log + [9, 3, 0, 0]
-                        if sig not in IGN_KIND:
-                            return log + [9, 2, sig, 0]
-                elif k == 8:
-                    log += [2, r['k'], 0] + fl
-        elif o[0] in (3, 4, 5, 6, 8):
+            again = True
+            while again:
+                # (a raise made inside the handler - op 9 - stays pending while the handler runs, its own signal being
+                # blocked, and is delivered when it has returned: one more complete delivery)
+                again = False
+                for r in [r for r in regs if r and r['live'] and r['sig'] == sig]:
+                    k = r['kind']
+                    if k == 3:
+                        fl[r['f']] = 1                      # a registered flag holds true ...
+                    elif k == 4:
+                        fl[r['f']] = r['v']                 # ... or the registered value
+                    elif k == 5:
+                        if fl[r['c']]:                      # condition true at that moment: immediately,
+                            return log + [9, 1, r['status'] & 0xff, 0]   # exactly that status, no exit hooks
+                    elif k == 6:
+                        if fl[r['c']]:
+                            if sig in STOP_KIND:
+                                return log + [9, 3, 0, 0]
+                            if sig not in IGN_KIND:
+                                return log + [9, 2, sig, 0]
+                    elif k in (8, 9):
+                        log += [2, r['k'], 0] + fl
+                        if k == 9 and not r.get('fired'):
+                            r['fired'] = True
+                            again = True
+        elif o[0] in (3, 4, 5, 6, 8, 9):
             r = {'kind': o[0], 'sig': o[1], 'live': True}
             if o[0] == 3:
                 r['f'] = o[2]
@@ -204,7 +214,7 @@ def gen_random(rnd, term, length):
                     nreg += 1
                     continue
             else:
-                ops.append((8, sig, k)); k += 1
+                ops.append((9 if (rnd.random() < 0.3 and sig < 32) else 8, sig, k)); k += 1
             nreg += 1
             if sig not in delivered_ok:
                 delivered_ok.append(sig)
@@ -228,6 +238,13 @@ def fixed_cases(term):
         ('fx', [(5, 10, 1, 0), (5, 10, 2, 1), (1, 1, 1), (1, 0, 1), (2, 10)]),                              # both armed: the first registered wins
         ('fx', [(3, 10, 0), (5, 12, 4, 0), (2, 12), (2, 10), (2, 12)]),                                     # armed by another signal
         ('fx', [(6, 64, 0), (6, t, 0), (2, t), (1, 0, 1), (2, t)]),                                         # conditional default
+        # the second signal arrives DURING the first delivery (raised by an action in between): it waits for the handler
+        # to return, so the double-signal set-up still survives the first and dies on the second
+        ('fx', [(5, t, 9, 0), (9, t, 50), (3, t, 0), (2, t)]),
+        ('fx', [(5, t, 9, 0), (3, t, 0), (9, t, 50), (2, t)]),
+        ('fx', [(9, t, 50), (5, t, 9, 0), (3, t, 0), (2, t), (2, t)]),
+        ('fx', [(3, t, 0), (5, t, 9, 0), (9, t, 50), (2, t)]),                                              # armed first: dies on the first
+        ('fx', [(9, 10, 50), (9, 10, 51), (4, 10, NB, 7), (8, 10, 52), (2, 10), (1, NB, 0), (2, 10)]),      # two re-raisers: one pending delivery
     ]
 
 
@@ -273,7 +290,7 @@ def strip_env(ops):
 
 
 def with_env(rnd, fam, ops):
-    sigs = sorted(set(o[1] for o in ops if o[0] in (2, 3, 4, 5, 6, 8)))
+    sigs = sorted(set(o[1] for o in ops if o[0] in (2, 3, 4, 5, 6, 8, 9)))
     env = [(-1, s, rnd.choice((1, 2, 3))) for s in sigs if s not in (9, 19) and rnd.random() < 0.7]
     if rnd.random() < 0.6:
         env.append((-2, rnd.choice((1, 3))))
@@ -290,7 +307,7 @@ def valid(ops):
     """every delivery is for a signal whose handler has been installed by an earlier successful registration"""
     installed = set()
     for o in ops:
-        if o[0] in (3, 4, 5, 8) or (o[0] == 6 and o[1] in KNOWN_SIGS):
+        if o[0] in (3, 4, 5, 8, 9) or (o[0] == 6 and o[1] in KNOWN_SIGS):
             installed.add(o[1])
         elif o[0] == 2 and o[1] not in installed:
             return False
@@ -304,7 +321,7 @@ def shrink(ops, still_fails, budget=12):
     for _ in range(budget):
         cands = []
         for j in range(len(cur)):
-            if cur[j][0] in (3, 4, 5, 6, 8) and any(o[0] == 7 for o in cur):
+            if cur[j][0] in (3, 4, 5, 6, 8, 9) and any(o[0] == 7 for o in cur):
                 continue
             c = cur[:j] + cur[j + 1:]
             if valid(c):
